@@ -177,7 +177,7 @@ def histories(tier, seed):
     return sorted(set(hs))
 
 
-PROGS_Q = ['lu(2x2)', 'x*x', 'sin(x)*x', 'x/(1+x*x)', 'sum(x*exp(x)/(1+x0*x1)+sin(x)*x[::-1])', 'tan(x)*x', 'buffer', 'buffer-overwrite', 'exp(dot)']
+PROGS_Q = ['lu(2x2)', 'cholesky(outer(x,x)+I)', 'x*x', 'sin(x)*x', 'x/(1+x*x)', 'sum(x*exp(x)/(1+x0*x1)+sin(x)*x[::-1])', 'tan(x)*x', 'buffer', 'buffer-overwrite', 'exp(dot)']
 PROGS_T = PROGS_Q + ['x[1:]*x[:-1]', 'log(sum sq)', 'prod', 'x**3', 'sqrt(x)*x[0]', 'expit', 'erf', 'x*x[::-1]']
 
 
@@ -188,7 +188,9 @@ def units(tier, seed):
     progs = PROGS_Q if tier == 'quick' else PROGS_T
     rng = random.Random(7 + seed)
     for pn in progs:
-        if pn == 'lu(2x2)':
+        if pn == 'cholesky(outer(x,x)+I)':
+            chosen = [('PB', 'PB'), ('F22', 'PB', 'PB'), ('GRAD', 'GRAD'), ('GRAD', 'PB'), ('PB', 'OTHER', 'PB'), ('HV', 'GRAD'), ('F22', 'GRAD')]
+        elif pn == 'lu(2x2)':
             chosen = [('PB', 'PB'), ('F22', 'PB', 'PB'), ('PB', 'F11', 'PB'), ('F11', 'PB'), ('PB', 'OTHER', 'PB')]
         elif tier == 'quick':
             chosen = [h for h in hs if len(h) <= 2][:: 2 if pn not in ('tan(x)*x', 'buffer-overwrite', 'buffer') else 1]
